@@ -168,6 +168,8 @@ class Sandbox:
         full_env = self.base_env()
         if env:
             full_env.update(env)
+        # exact bytes, independent of the harness's own locale
+        full_env = {k.encode("utf-8"): v.encode("utf-8") for k, v in full_env.items()}
         argv = [binary or self.bin] + list(args)
 
         def pre():
